@@ -450,6 +450,9 @@ def eval_checksig_tapscript(sig, pk, flags, checker, ex):
     return success
 
 
+LAST = {}   # observation only (C15): executed non-push ops and peak stack of the latest eval_script calls; callers clear it
+
+
 def eval_script(stack, s, flags, checker, sigversion, ex=None):
     if sigversion in (BASE, WITNESS_V0) and len(s) > 10000:
         raise Err("SCRIPT_SIZE")
@@ -475,8 +478,11 @@ def eval_script(stack, s, flags, checker, sigversion, ex=None):
         op, data, pc = g
         if len(data) > 520:
             raise Err("PUSH_SIZE")
+        if op > 0x60:
+            LAST["ops_any"] = LAST.get("ops_any", 0) + 1
         if sigversion in (BASE, WITNESS_V0) and op > 0x60:
             nop += 1
+            LAST["nop"] = nop
             if nop > 201:
                 raise Err("OP_COUNT")
         if op in DISABLED:
@@ -699,6 +705,7 @@ def eval_script(stack, s, flags, checker, sigversion, ex=None):
                 if nkeys < 0 or nkeys > 20:
                     raise Err("PUBKEY_COUNT")
                 nop += nkeys
+                LAST["nop"] = nop
                 if nop > 201:
                     raise Err("OP_COUNT")
                 i += 1
@@ -753,6 +760,8 @@ def eval_script(stack, s, flags, checker, sigversion, ex=None):
                         raise Err("CHECKMULTISIGVERIFY")
             else:
                 raise Err("BAD_OPCODE")
+        if len(stack) + len(alt) > LAST.get("peak", 0):
+            LAST["peak"] = len(stack) + len(alt)
         if len(stack) + len(alt) > 1000:
             raise Err("STACK_SIZE")
         opcode_pos += 1
